@@ -10,7 +10,7 @@ from __future__ import annotations
 import ast
 
 FUNCS = {}
-MODULES = {"itertools", "operator", "functools", "collections", "copy", "contextlib", "concurrent.futures"}
+MODULES = {"itertools", "operator", "functools", "collections", "copy", "contextlib", "concurrent.futures", "io"}
 
 
 def reg(*names):
@@ -403,3 +403,38 @@ def _executor(it, args, kwargs, node):
                     return Future(exc=r)
             return NotImplemented
     return Executor()
+
+
+# ----------------------------------------------------------------------------- io.StringIO (text accumulator)
+@reg("io.StringIO")
+def _stringio(it, args, kwargs, node):
+    A = _A()
+
+    class StringIO(A.AbsVal):
+        def __init__(self, initial):
+            self.parts = [initial] if initial not in (None, "") else []
+            self.read_pos_at_start = True
+
+        def __repr__(self):
+            return f"<StringIO {len(self.parts)} parts>"
+
+        def call_method(self, it2, name, a, k):
+            if name == "write":
+                self.parts.append(a[0])
+                return A.call_builtin(it2, "len", [a[0]], {})
+            if name == "writelines":
+                self.parts.extend(it2.iterate(a[0]))
+                return None
+            if name == "getvalue":
+                return A.call_builtin_method(it2, "", "join", [A.AList(list(self.parts))], {})
+            if name in ("__enter__",):
+                return self
+            if name in ("__exit__", "close", "flush"):
+                return None
+            if name == "__type__":
+                return A.BuiltinType("StringIO")
+            return NotImplemented
+    init = args[0] if args else kwargs.get("initial_value")
+    if init not in (None, ""):
+        raise A.Unsupported("io.StringIO with an initial value (writes then overwrite it from position 0)")
+    return StringIO(init)
